@@ -4,8 +4,8 @@
 
    Paths are TEXT (lists of code points), because the code compares path strings: the test that decides whether an ignore
    file found during the walk is still relevant is
-       dirname == inner_dirname or dirname.startswith(os.path.abspath(inner_dirname) + os.sep)
-   where both names are spelled the way the caller spelled the path.  So the spelling (relative, absolute, ".", "./x",
+       dirname == inner_dirname or os.path.abspath(dirname).startswith(os.path.abspath(inner_dirname) + os.sep)
+   (before commit 08d2a28 the left operand of startswith was the bare dirname, spelled the way the caller spelled the path: F8).  So the spelling (relative, absolute, ".", "./x",
    trailing slash, "..") is simply the [path] argument.
 
    The file system is a tree [dir] rooted at "/" (no symlinks; names are compared as texts).  pathspec is an oracle
@@ -208,9 +208,10 @@ Section Discovery.
   Definition match_file_extension (filepath : text) (exts : list text) : bool :=
     existsb (fun e => endswith e (lower filepath)) exts.
 
-  (* the relevance test for an inner ignore spec while walking *)
+  (* the relevance test for an inner ignore spec while walking (after the repair of F8, commit 08d2a28: absolute on both sides):
+       dirname == inner_dirname or os.path.abspath(dirname).startswith(os.path.abspath(inner_dirname) + os.sep) *)
   Definition keep_inner (dirname : text) (r : specrec) : bool :=
-    text_eqb dirname (sr_dir r) || startswith (abspath cwd (sr_dir r) ++ [slash]) dirname.
+    text_eqb dirname (sr_dir r) || startswith (abspath cwd (sr_dir r) ++ [slash]) (abspath cwd dirname).
 
   Section Walk.
     Variable ignore_files : bool.
